@@ -210,6 +210,36 @@ func TestC20(t *testing.T) {
 					return c
 				})
 			}
+			// every value awkward at once (extremes, a huge and a tiny magnitude next to each other): the order
+			// and the precision in which an increment is accumulated show in the result
+			eng, op := eng, op
+			c20cell(t, "EW", fmt.Sprintf("arith/%s/incr-awkward/eng=%s", op, eng), nCases(25, 600), func(rt *rapid.T) Case {
+				d := engDT(eng)
+				if eng == "" {
+					d = rapid.SampledFrom(floatDTs).Draw(rt, "dt")
+				}
+				form := rapid.SampledFrom([]string{"TT", "TS", "ST"}).Draw(rt, "form")
+				c := genArithCase(rt, "C20", op, d, form, "pkg", "safe", []string{"contig", "contig", "lazyT", "sliced"})
+				c = withMode(rt, c, "incr", d)
+				c.Engine = eng
+				awk := []int64{1004, 1005, 1007, 1008, 1010, 1, -1, 3, 1004, 1005}
+				redraw := func(codes []int64, label string) {
+					for i := range codes {
+						codes[i] = rapid.SampledFrom(awk).Draw(rt, label)
+					}
+				}
+				redraw(c.A.Codes, "aa")
+				if c.B != nil {
+					redraw(c.B.Codes, "ab")
+				} else {
+					c.Scalar = rapid.SampledFrom(awk).Draw(rt, "as")
+				}
+				if c.Dst != nil {
+					redraw(c.Dst.Codes, "ad")
+				}
+				avoidF39(c)
+				return c
+			})
 		}
 		eng := eng
 		c20cell(t, "C20.fma", "fma/eng="+eng, nCases(150, 4000), func(rt *rapid.T) Case {
